@@ -412,6 +412,12 @@ impl Property for C01 {
             }
             v
         };
+        if all_runs.iter().any(|(_, r)| r.inconclusive) {
+            out.skipped = Some("unbounded_consumer_met_endless_stream");
+            out.nontrivial = false;
+            out.trace_hash = trace.finish();
+            return out;
+        }
         let panics: Vec<Option<String>> = all_runs.iter().map(|(_, r)| pan(r)).collect();
         if panics.iter().all(|p| p.is_some()) {
             out.skipped = Some("panicked_on_every_path");
@@ -471,6 +477,14 @@ impl Property for C01 {
                     ),
                 ));
                 trace.str("pixels_vs_draw");
+            }
+        }
+        if out.violation.is_none() {
+            // a native target may size or stop its transfer by the stream's size_hint(): a stream
+            // that contradicts its own hint draws a different image on such a target
+            if let Some((name, r)) = all_runs.iter().find(|(_, r)| r.hint_breach.is_some()) {
+                out.violation = Some(mk("size_hint_contradicted", name, format!("path {}: {}", name, r.hint_breach.clone().unwrap())));
+                trace.str("size_hint_contradicted");
             }
         }
         out.trace_hash = trace.finish();
